@@ -600,6 +600,312 @@ static void scn_migrace(void)
     pthread_join(b, NULL);
 }
 
+/* ======================================================================= directed switches (C11)
+ * A chain of named ULTs on the primary execution stream (the primary ULT
+ * takes part, id 9).  Whoever has control picks the next primitive among the
+ * legal ones; every primitive records who must run next and in which state
+ * the caller must be observed; the unit that gains control reports who it is
+ * and what it sees.  A ULT on another stream resumes plainly suspended units
+ * the moment their BLOCKED state becomes observable. */
+enum { S_NONE, S_NEW, S_PARKED, S_FREE, S_BLOCKED, S_RUN, S_DONE };
+#define SWMAX 8
+#define SW_PRIMARY 9
+typedef struct {
+    int id, inc, plain; /* plain: suspended by ABT_self_suspend (remote resume allowed) */
+    volatile int stt;
+    ABT_thread th;
+    volatile int claim;
+} sw_t;
+static sw_t SW[SW_PRIMARY + 1];
+static int g_nsw, g_sw_budget, g_sw_creates;
+static volatile int g_exp_of, g_sw_over;
+static ABT_pool g_p0;
+static void sw_entry(void *arg);
+
+static sw_t *sw_lookup(ABT_thread t)
+{
+    for (int i = 1; i <= SW_PRIMARY; i++)
+        if (SW[i].stt != S_NONE && SW[i].th == t)
+            return &SW[i];
+    return NULL;
+}
+static void sw_run_event(sw_t *me)
+{
+    int rank = -1;
+    ABT_xstream_self_rank(&rank);
+    int of = g_exp_of, ost = -1;
+    g_exp_of = -1;
+    abtv_atomic_begin(); /* one snapshot of the states and sizes reported below */
+    if (of > 0)
+        ost = state_of(SW[of].th);
+    size_t sz = 0, tot = 0;
+    CHK(ABT_pool_get_size(g_p0, &sz));
+    CHK(ABT_pool_get_total_size(g_p0, &tot));
+    me->stt = S_RUN;
+    EV("\"e\":\"Run\",\"u\":%d,\"es\":%d,\"of\":%d,\"ost\":%d,\"size\":%d,\"total\":%d", me->id, rank, of, ost, (int)sz,
+       (int)tot);
+    abtv_atomic_end();
+}
+static int sw_pick(int want, int exclude)
+{
+    int c[SW_PRIMARY + 1], n = 0;
+    for (int i = 1; i <= SW_PRIMARY; i++)
+        if (i != exclude && SW[i].stt == want)
+            c[n++] = i;
+    return n ? c[rnd(n)] : 0;
+}
+static int sw_claim(sw_t *b)
+{
+    return __sync_bool_compare_and_swap(&b->claim, 0, 1);
+}
+static void sw_new_unit(int by, int id, int to)
+{
+    sw_t *n = &SW[id];
+    n->id = id;
+    n->inc = 0;
+    n->claim = 0;
+    n->plain = 0;
+    ABT_thread_attr attr;
+    CHK(ABT_thread_attr_create(&attr));
+    CHK(ABT_thread_attr_set_stacksize(attr, 65536));
+    if (to) {
+        sw_t *me = &SW[by];
+        me->stt = S_PARKED;
+        n->stt = S_RUN;
+        g_exp_of = by;
+        EV("\"e\":\"Prim\",\"u\":%d,\"op\":\"create_to\",\"t\":%d,\"arg\":%d", by, id, id * 10);
+        CHK(ABT_thread_create_to(g_p0, sw_entry, n, attr, &n->th));
+    } else {
+        n->stt = S_NEW;
+        EV("\"e\":\"Create\",\"by\":%d,\"u\":%d,\"kind\":0,\"named\":1,\"arg\":%d,\"pool\":0", by, id, id * 10);
+        CHK(ABT_thread_create(g_p0, sw_entry, n, attr, &n->th));
+        EV("\"e\":\"CreateRet\",\"by\":%d,\"u\":%d", by, id);
+    }
+    CHK(ABT_thread_attr_free(&attr));
+}
+/* returns 0 when the caller must finish */
+static int sw_step(sw_t *me)
+{
+    int primary = me->id == SW_PRIMARY;
+    if (g_sw_budget <= 0 || g_sw_over)
+        return 0;
+    g_sw_budget--;
+    for (int attempt = 0; attempt < 8; attempt++) {
+        int op = rnd(12);
+        if (op <= 2) {
+            /* take a ready unit out of the pool and switch to it */
+            ABT_thread t = ABT_THREAD_NULL;
+            CHK(ABT_pool_pop_thread(g_p0, &t));
+            if (t == ABT_THREAD_NULL)
+                continue;
+            sw_t *T = sw_lookup(t);
+            if (!T)
+                abtv_fail("broken:unknown-unit-popped", ABTV_EXIT_BROKEN);
+            EV("\"e\":\"Pop\",\"by\":%d,\"t\":%d", me->id, T->id);
+            T->stt = S_FREE;
+            int k = rnd(3);
+            if (k == 1 && primary)
+                k = 0; /* the primary ULT never blocks: it has to clean up */
+            if (k == 2 && (primary || T->id == SW_PRIMARY))
+                k = 0;
+            g_exp_of = me->id;
+            T->stt = S_RUN;
+            if (k == 0) {
+                me->stt = S_PARKED;
+                EV("\"e\":\"Prim\",\"u\":%d,\"op\":\"yield_to\",\"t\":%d,\"arg\":0", me->id, T->id);
+                CHK(ABT_self_yield_to(T->th));
+            } else if (k == 1) {
+                me->stt = S_BLOCKED;
+                me->plain = 0;
+                me->claim = 0;
+                EV("\"e\":\"Prim\",\"u\":%d,\"op\":\"suspend_to\",\"t\":%d,\"arg\":0", me->id, T->id);
+                CHK(ABT_self_suspend_to(T->th));
+            } else {
+                me->stt = S_DONE;
+                EV("\"e\":\"Prim\",\"u\":%d,\"op\":\"exit_to\",\"t\":%d,\"arg\":0", me->id, T->id);
+                CHK(ABT_self_exit_to(T->th));
+                abtv_fail("crash:exit_to-returned", ABTV_EXIT_CRASH);
+            }
+            sw_run_event(me);
+            return 1;
+        } else if (op <= 5) {
+            int b = sw_pick(S_BLOCKED, me->id);
+            if (!b || !sw_claim(&SW[b]))
+                continue;
+            sw_t *B = &SW[b];
+            int k = rnd(4);
+            if ((k == 2 || k == 3) && primary)
+                k = rnd(2);
+            if (k == 0) {
+                B->stt = S_PARKED;
+                EV("\"e\":\"Prim\",\"u\":%d,\"op\":\"resume\",\"t\":%d,\"arg\":0", me->id, b);
+                CHK(ABT_thread_resume(B->th));
+                return 1;
+            }
+            g_exp_of = me->id;
+            B->stt = S_RUN;
+            if (k == 1) {
+                me->stt = S_PARKED;
+                EV("\"e\":\"Prim\",\"u\":%d,\"op\":\"resume_yield_to\",\"t\":%d,\"arg\":0", me->id, b);
+                CHK(ABT_self_resume_yield_to(B->th));
+            } else if (k == 2) {
+                me->stt = S_BLOCKED;
+                me->plain = 0;
+                me->claim = 0;
+                EV("\"e\":\"Prim\",\"u\":%d,\"op\":\"resume_suspend_to\",\"t\":%d,\"arg\":0", me->id, b);
+                CHK(ABT_self_resume_suspend_to(B->th));
+            } else {
+                me->stt = S_DONE;
+                EV("\"e\":\"Prim\",\"u\":%d,\"op\":\"resume_exit_to\",\"t\":%d,\"arg\":0", me->id, b);
+                CHK(ABT_self_resume_exit_to(B->th));
+                abtv_fail("crash:resume_exit_to-returned", ABTV_EXIT_CRASH);
+            }
+            sw_run_event(me);
+            return 1;
+        } else if (op == 6) {
+            if (g_nsw >= SWMAX || g_sw_creates <= 0)
+                continue;
+            g_sw_creates--;
+            int id = ++g_nsw;
+            int to = rnd(2);
+            sw_new_unit(me->id, id, to);
+            if (to)
+                sw_run_event(me);
+            return 1;
+        } else if (op == 7) {
+            int d = sw_pick(S_DONE, me->id);
+            if (!d || d == SW_PRIMARY || SW[d].inc >= 2)
+                continue;
+            sw_t *D = &SW[d];
+            D->inc++;
+            D->stt = S_RUN;
+            D->claim = 0;
+            me->stt = S_PARKED;
+            g_exp_of = me->id;
+            EV("\"e\":\"Prim\",\"u\":%d,\"op\":\"revive_to\",\"t\":%d,\"arg\":%d", me->id, d, d * 10 + D->inc);
+            CHK(ABT_thread_revive_to(g_p0, sw_entry, D, &D->th));
+            sw_run_event(me);
+            return 1;
+        } else if (op == 8) {
+            /* the old interface takes a unit that is still in the pool */
+            int t = sw_pick(rnd(2) ? S_PARKED : S_NEW, me->id);
+            if (!t)
+                continue;
+            sw_t *T = &SW[t];
+            me->stt = S_PARKED;
+            T->stt = S_RUN;
+            g_exp_of = me->id;
+            EV("\"e\":\"Prim\",\"u\":%d,\"op\":\"thread_yield_to\",\"t\":%d,\"arg\":0", me->id, t);
+            CHK(ABT_thread_yield_to(T->th));
+            sw_run_event(me);
+            return 1;
+        } else if (op <= 10) {
+            me->stt = S_PARKED;
+            EV("\"e\":\"Prim\",\"u\":%d,\"op\":\"yield\",\"t\":0,\"arg\":0", me->id);
+            CHK(rnd(2) ? ABT_self_yield() : ABT_thread_yield());
+            sw_run_event(me);
+            return 1;
+        } else {
+            if (primary)
+                continue;
+            me->plain = 1;
+            me->claim = 0;
+            EV("\"e\":\"Prim\",\"u\":%d,\"op\":\"suspend\",\"t\":0,\"arg\":0", me->id);
+            me->stt = S_BLOCKED;
+            CHK(ABT_self_suspend());
+            sw_run_event(me);
+            return 1;
+        }
+    }
+    return 1;
+}
+static void sw_entry(void *arg)
+{
+    sw_t *me = (sw_t *)arg;
+    int rank = -1;
+    ABT_xstream_self_rank(&rank);
+    EV("\"e\":\"Start\",\"u\":%d,\"arg\":%d,\"es\":%d,\"n\":1", me->id, me->id * 10 + me->inc, rank);
+    sw_run_event(me);
+    while (sw_step(me))
+        ;
+    me->stt = S_DONE;
+    EV("\"e\":\"Finish\",\"u\":%d", me->id);
+}
+/* on another stream: resume plainly suspended units as soon as BLOCKED is visible */
+static void sw_remote(void *arg)
+{
+    (void)arg;
+    while (!g_sw_over) {
+        for (int i = 1; i <= SWMAX; i++) {
+            sw_t *b = &SW[i];
+            if (b->stt == S_BLOCKED && b->plain && state_of(b->th) == 2 && sw_claim(b)) {
+                EV("\"e\":\"ResumeCall\",\"by\":-1,\"u\":%d", i);
+                CHK(ABT_thread_resume(b->th));
+                /* the unit may already be running again on the primary stream */
+                __sync_bool_compare_and_swap(&b->stt, S_BLOCKED, S_PARKED);
+                EV("\"e\":\"ResumeRet\",\"by\":-1,\"u\":%d", i);
+            }
+        }
+        ABT_thread_yield();
+        abtv_idle_hint();
+    }
+}
+static void scn_switch(void)
+{
+    memset(SW, 0, sizeof SW);
+    g_p0 = g_pool[0][0];
+    g_exp_of = -1;
+    g_sw_over = 0;
+    g_sw_budget = 6 + rnd(14);
+    g_sw_creates = 3;
+    g_nsw = 1 + rnd(3);
+    EV("\"e\":\"Exec\",\"nu\":%d,\"nes\":%d,\"cfg\":%d,\"ext\":0", g_nsw, g_nes, g_cfg);
+    sw_t *me = &SW[SW_PRIMARY];
+    me->id = SW_PRIMARY;
+    me->stt = S_RUN;
+    CHK(ABT_thread_self(&me->th));
+    EV("\"e\":\"Primary\",\"u\":%d", SW_PRIMARY);
+    ABT_thread remote = ABT_THREAD_NULL;
+    if (g_nes > 1)
+        CHK(ABT_thread_create(g_pool[1][0], sw_remote, NULL, ABT_THREAD_ATTR_NULL, &remote));
+    for (int i = 1; i <= g_nsw; i++)
+        sw_new_unit(SW_PRIMARY, i, 0);
+    while (sw_step(me))
+        ;
+    /* clean up: everybody must terminate */
+    g_sw_budget = 0;
+    for (;;) {
+        int left = 0;
+        for (int i = 1; i <= SWMAX; i++)
+            left += SW[i].stt != S_NONE && SW[i].stt != S_DONE;
+        if (!left)
+            break;
+        int b = sw_pick(S_BLOCKED, SW_PRIMARY);
+        if (b && sw_claim(&SW[b])) {
+            SW[b].stt = S_PARKED;
+            EV("\"e\":\"Prim\",\"u\":%d,\"op\":\"resume\",\"t\":%d,\"arg\":0", SW_PRIMARY, b);
+            CHK(ABT_thread_resume(SW[b].th));
+            continue;
+        }
+        me->stt = S_PARKED;
+        EV("\"e\":\"Prim\",\"u\":%d,\"op\":\"yield\",\"t\":0,\"arg\":0", SW_PRIMARY);
+        CHK(ABT_thread_yield());
+        sw_run_event(me);
+    }
+    g_sw_over = 1;
+    if (remote != ABT_THREAD_NULL)
+        CHK(ABT_thread_free(&remote));
+    for (int i = 1; i <= SWMAX; i++)
+        if (SW[i].stt == S_DONE) {
+            EV("\"e\":\"FreeCall\",\"by\":%d,\"u\":%d", SW_PRIMARY, i);
+            CHK(ABT_thread_free(&SW[i].th));
+            EV("\"e\":\"FreeRet\",\"by\":%d,\"u\":%d,\"null\":%d,\"tok\":%d", SW_PRIMARY, i, SW[i].th == ABT_THREAD_NULL,
+               i * 10 + SW[i].inc);
+        }
+    EV("\"e\":\"PrimaryDone\",\"u\":%d", SW_PRIMARY);
+    sample_blocked("quiet");
+}
+
 /* ---------------------------------------------------------------- configuration */
 static void setup_streams(void)
 {
@@ -756,9 +1062,11 @@ static void scenario(const char *name, uint64_t seed)
     setenv("ABT_THREAD_STACKSIZE", "65536", 1);
     CHK(ABT_init(0, NULL));
     setup_streams();
-    if (!strcmp(name, "migrate") || !strcmp(name, "migrace")) {
+    if (!strcmp(name, "migrate") || !strcmp(name, "migrace") || !strcmp(name, "switch")) {
         if (!strcmp(name, "migrace"))
             scn_migrace();
+        else if (!strcmp(name, "switch"))
+            scn_switch();
         else
             scn_migrate();
         for (int e = 1; e < g_nes; e++) {
